@@ -435,52 +435,72 @@ Definition computed_for (dl : list (list graph * list graph)) (g : graph) : grap
 Definition timer_expired_from_start (c : case) : bool := forallb (fun b => b) (c_timer c) && c_timer_rest c.
 Definition timer_generous (c : case) : bool := forallb negb (c_timer c) && negb (c_timer_rest c).
 
+(* the clauses, one definition each.  Common vocabulary: o = the objective; geff i = the graph
+   the delegate computed for individual i (its own graph if none); une / pre = the
+   not-yet-evaluated / pre-evaluated individuals of the input; m0 / cb = graphs on which metric 0 /
+   the callback was called; in_out i = some returned individual carries the uid of i *)
+Definition geff_of (ob : observed) (i : ind) : graph := computed_for (o_deleg ob) (gr i).
+Definition in_out (ob : observed) (i : ind) : bool := existsb (fun x => Nat.eqb (uid x) (uid i)) (o_out ob).
+Definition is_new (c : case) (x : ind) : bool := existsb (fun i => Nat.eqb (uid i) (uid x)) (unevaluated c).
+
+(* only individuals of the input, each with a valid fitness: a pre-evaluated one unchanged, a
+   newly evaluated one with the objective value of (the delegate's graph for) its graph *)
+Definition clause_sound (c : case) (ob : observed) : bool :=
+  forallb (fun x => valid (fitness x)
+                    && (existsb (fun i => ind_eqb i x) (preevaluated c)
+                        || existsb (fun i => Nat.eqb (uid i) (uid x)
+                                             && fit_eqb (fitness x) (spec_fit (case_objective c) (geff_of ob i)))
+                                   (unevaluated c))) (o_out ob).
+
+(* pre-evaluated individuals are passed through ... *)
+Definition clause_passthrough (c : case) (ob : observed) : bool :=
+  forallb (fun i => existsb (fun x => ind_eqb i x) (o_out ob)) (preevaluated c).
+
+(* ... and nothing but graphs of not-yet-evaluated individuals reaches the metrics *)
+Definition clause_no_reevaluation (c : case) (ob : observed) : bool :=
+  forallb (fun g => existsb (fun i => Nat.eqb (geff_of ob i) g) (unevaluated c)) (metric_graphs (o_log ob)).
+
+(* not evaluable => left out *)
+Definition clause_left_out (c : case) (ob : observed) : bool :=
+  forallb (fun i => valid (spec_fit (case_objective c) (geff_of ob i)) || negb (in_out ob i)) (unevaluated c).
+
+(* evaluable: returned exactly when it reached the objective (not cut off by the time limit), and
+   then its graph was evaluated once - counted per graph label: the number of objective calls on
+   the label = the number of returned individuals evaluated on that label *)
+Definition clause_exactly (c : case) (ob : observed) : bool :=
+  forallb (fun i => negb (valid (spec_fit (case_objective c) (geff_of ob i)))
+                    || Nat.eqb (count (Nat.eqb (geff_of ob i)) (metric0_graphs (o_log ob)))
+                               (count (fun j => Nat.eqb (geff_of ob j) (geff_of ob i) && in_out ob j) (unevaluated c)))
+          (unevaluated c).
+
+(* a generous time limit cuts nobody off *)
+Definition clause_generous (c : case) (ob : observed) : bool :=
+  negb (timer_generous c)
+  || forallb (fun i => Nat.leb (count (fun j => Nat.eqb (geff_of ob j) (geff_of ob i)) (unevaluated c))
+                               (count (Nat.eqb (geff_of ob i)) (metric0_graphs (o_log ob)))) (unevaluated c).
+
+(* the callback sees a graph once per objective call on it *)
+Definition clause_callback (ob : observed) : bool :=
+  perm_b Nat.eqb (callback_graphs (o_log ob)) (metric0_graphs (o_log ob)).
+
+(* expired from the start: the sequential dispatcher returns the pre-evaluated only; the parallel
+   one returns something iff anything is pre-evaluated or evaluable, and exactly one individual
+   when nothing was pre-evaluated *)
+Definition clause_expired (c : case) (ob : observed) : bool :=
+  negb (timer_expired_from_start c)
+  || (if c_par c
+      then Bool.eqb (negb (Nat.eqb (length (o_out ob)) 0))
+                    (negb (Nat.eqb (length (preevaluated c)) 0)
+                     || existsb (fun i => valid (spec_fit (case_objective c) (geff_of ob i))) (unevaluated c))
+           && (negb (Nat.eqb (length (preevaluated c)) 0) || Nat.leb (length (o_out ob)) 1)
+      else forallb (fun x => negb (is_new c x)) (o_out ob)).
+
 Definition holds_b (c : case) (ob : observed) : bool :=
   if negb (in_scope c) then true else
-  let o := case_objective c in
-  let geff := fun i : ind => computed_for (o_deleg ob) (gr i) in
-  let out := o_out ob in
-  let une := unevaluated c in
-  let pre := preevaluated c in
-  let m0 := metric0_graphs (o_log ob) in
-  let cb := callback_graphs (o_log ob) in
-  let is_new := fun x : ind => existsb (fun i => Nat.eqb (uid i) (uid x)) une in
-  let in_out := fun i : ind => existsb (fun x => Nat.eqb (uid x) (uid i)) out in
-  (* no exception *)
   negb (o_raised ob)
-  (* only individuals of the input, each with a valid fitness: a pre-evaluated one unchanged,
-     a newly evaluated one with the objective value of (the delegate's graph for) its graph *)
-  && forallb (fun x => valid (fitness x)
-                       && (existsb (fun i => ind_eqb i x) pre
-                           || existsb (fun i => Nat.eqb (uid i) (uid x)
-                                                && fit_eqb (fitness x) (spec_fit o (geff i))) une)) out
-  (* pre-evaluated individuals are passed through ... *)
-  && forallb (fun i => existsb (fun x => ind_eqb i x) out) pre
-  (* ... and nothing but graphs of not-yet-evaluated individuals reaches the metrics *)
-  && forallb (fun g => existsb (fun i => Nat.eqb (geff i) g) une) (metric_graphs (o_log ob))
-  (* not evaluable => left out *)
-  && forallb (fun i => valid (spec_fit o (geff i)) || negb (in_out i)) une
-  (* evaluable: returned exactly when it reached the objective (not cut off by the time limit), and
-     then its graph was evaluated once - counted per graph label: the number of objective calls
-     on the label = the number of returned individuals evaluated on that label *)
-  && forallb (fun i => negb (valid (spec_fit o (geff i)))
-                       || Nat.eqb (count (Nat.eqb (geff i)) m0)
-                                  (count (fun j => Nat.eqb (geff j) (geff i) && in_out j) une)) une
-  (* a generous time limit cuts nobody off *)
-  && (negb (timer_generous c)
-      || forallb (fun i => Nat.leb (count (fun j => Nat.eqb (geff j) (geff i)) une)
-                                   (count (Nat.eqb (geff i)) m0)) une)
-  (* the callback sees a graph once per objective call on it *)
-  && perm_b Nat.eqb cb m0
-  (* expired from the start: the sequential dispatcher returns the pre-evaluated only; the
-     parallel one returns something iff anything is pre-evaluated or evaluable, and exactly one
-     individual when nothing was pre-evaluated *)
-  && (negb (timer_expired_from_start c)
-      || (if c_par c
-          then Bool.eqb (negb (Nat.eqb (length out) 0))
-                        (negb (Nat.eqb (length pre) 0) || existsb (fun i => valid (spec_fit o (geff i))) une)
-               && (negb (Nat.eqb (length pre) 0) || Nat.leb (length out) 1)
-          else forallb (fun x => negb (is_new x)) out)).
+  && clause_sound c ob && clause_passthrough c ob && clause_no_reevaluation c ob
+  && clause_left_out c ob && clause_exactly c ob && clause_generous c ob
+  && clause_callback ob && clause_expired c ob.
 
 (* which individual received which fitness, compared between two runs on one scenario *)
 Definition same_assignment_b (out1 out2 : list ind) : bool :=
